@@ -224,7 +224,12 @@ def run_impl(case):
             return bufs[key]
         bufs[key] = x
         return x
-    for op in case["ops"]:
+    for step, op in enumerate(case["ops"]):
+        if case.get("relay") and step and step % case["relay"]["every"] == 0:
+            # a deep copy / pickle round trip of the archive continues exactly like the original
+            import copy
+            import pickle
+            a = copy.deepcopy(a) if case["relay"]["how"] == "deepcopy" else pickle.loads(pickle.dumps(a))
         ent = {"op": op, "pre": rows}
         pre_meas = [r[1][3] for r in rows]
         kind = op[0]
@@ -788,7 +793,10 @@ def gen_case(rng, tier, force=None):
             if o[0] == "clear" and rng.random() < 0.7:
                 out.append([rng.choice(["lower", "upper"])])
         ops = out
-    return {"cfg": cfg, "ops": ops, "reuse": rng.random() < 0.4}
+    case = {"cfg": cfg, "ops": ops, "reuse": rng.random() < 0.4}
+    if rng.random() < 0.3:
+        case["relay"] = {"how": rng.choice(["deepcopy", "pickle"]), "every": rng.choice([1, 2, 3, 5])}
+    return case
 
 
 def gen_malformed(rng):
